@@ -36,7 +36,20 @@ Definition the_probes : probes :=
                                         end) (dedupe (map snd needed)))) ops.
 
 (* the sites of the expected table that no probe needs and nothing excuses *)
-Definition expected_unneeded : list (list kind) := Eval vm_compute in unneeded expected the_probes.
+Definition all_model_kinds : list kind :=
+  [DHistory; DDeployed; DGet; DCreate; DUpdate; DDelete; KcCreate; KcUpdate; KcDelete; KcWait; KcWaitDelete;
+   KcWatch ""].
+
+(* (a literal: Engine/SkeletonFineCoverCheck.v, outside the checked closure because of its cost
+   in coqchk, proves it equal to [unneeded expected the_probes]) *)
+Definition expected_unneeded : list (list kind) :=
+  [ [DUpdate]; [DUpdate];                                   (* updates next to a loop of updates *)
+    all_model_kinds; all_model_kinds; all_model_kinds;      (* reportToPerformUpgrade handed nil / behind a
+                                                               failed GetWaiter, handleContext *)
+    [KcDelete]; [KcDelete];                                 (* the alternative deletes of deleteRelease *)
+    [DGet];                                                 (* releaseContent with a version *)
+    [KcDelete; KcWaitDelete]; [KcDelete; KcWaitDelete]; [KcDelete; KcWaitDelete] ].
+                                                            (* hook deletions that read like their siblings *)
 
 (* a table passes when it has no other such site (by label: kind of the call / name of the run) *)
 Definition coverage_ok (t : table) : bool := multi_incl (unneeded t the_probes) expected_unneeded.
